@@ -12,7 +12,7 @@ rsync -a --delete --exclude target --exclude .git /repo/ $R/repo/
 rsync -a --delete --exclude harness/target --exclude harness/fuzz/target --exclude out --exclude .git --exclude evidence /verif/ $R/verif/
 mkdir -p $R/verif/evidence $R/verif/out
 sed -i "s#\"/repo/#\"$R/repo/#g" $R/verif/harness/Cargo.toml
-sed -i "s#cd /repo \&\&#cd $R/repo \&\&#" $R/verif/check
+sed -i "s#^REPO_DIR=/repo#REPO_DIR=$R/repo#" $R/verif/check
 (cd $R/repo && git init -q 2>/dev/null; patch -p1 -s < /verif/seeded/$SID/patch.diff) || { echo "patch does not apply"; exit 3; }
 cd $R/verif
 for P in "$@"; do
